@@ -400,12 +400,12 @@ static void dump(void)
 	sercomm_init();
 	memset(big, 0x41, sizeof(big));
 	/* observed: how many octets handle_sercomm_write() offers to one write() at most */
-	hdlc_send_to_phone(5, big, 300);
-	hdlc_send_to_phone(5, big, 300);
+	for (len = 0; len < 60; len++)		/* far more than any plausible chunk: 60 messages of 200 octets */
+		hdlc_send_to_phone(5, big, 200);
 	wr_script = -2;
 	wr_called = 0;
 	handle_sercomm_write();
-	N("write_buf", wr_called ? (int) wr_count : -1);
+	N("write_buf", wr_called && wr_count < 60 * 200 ? (int) wr_count : -1);
 	/* observed: the largest LEN hdlc_send_to_phone() queues */
 	lo = -1;
 	for (len = 0; len <= 1000; len++) {
